@@ -34,9 +34,9 @@ struct ExactBuf {
   static const int TAIL = 32;
   explicit ExactBuf(size_t bytes, int fill = 0x5A) : n(bytes) {
 #ifdef OPSIM_ASAN
-    p = (unsigned char *)malloc(bytes ? bytes : 1);
+    p = (unsigned char *)sim_malloc(bytes ? bytes : 1);
 #else
-    p = (unsigned char *)malloc(bytes + TAIL);
+    p = (unsigned char *)sim_malloc(bytes + TAIL);
     memset(p + bytes, 0xC7, TAIL);
 #endif
     memset(p, fill, bytes);
@@ -47,7 +47,7 @@ struct ExactBuf {
 #endif
     return true;
   }
-  ~ExactBuf() { free(p); }
+  ~ExactBuf() { sim_free(p); }
   ExactBuf(const ExactBuf &) = delete;
   ExactBuf &operator=(const ExactBuf &) = delete;
 };
